@@ -86,7 +86,15 @@ func (x *FnCtx) binop(op token.Token, a, b *Term, t types.Type, bt types.Type, s
 			return tb.Ne(a, b)
 		case token.ADD:
 			if isString(t) {
-				return tb.UF("str.concat", IntSort, a, b)
+				r := tb.UF("gstr.concat", IntSort, a, b)
+				// |a + b| = |a| + |b|, lengths are non-negative
+				la, lb := tb.UF("gstr.len", x.intSort(), a), tb.UF("gstr.len", x.intSort(), b)
+				x.axiom(tb.Eq(tb.UF("gstr.len", x.intSort(), r), x.iadd(la, lb)))
+				x.axiom(x.le(x.idx(0), la))
+				x.axiom(x.le(x.idx(0), lb))
+				// the last |b| characters of a + b are b
+				x.axiom(tb.Eq(tb.UF("uf_strlast", IntSort, r, x.toInt(lb)), b))
+				return r
 			}
 		}
 		x.abstracted(fmt.Sprintf("binary %s on %s", op, t))
@@ -180,6 +188,29 @@ func (x *FnCtx) binop(op token.Token, a, b *Term, t types.Type, bt types.Type, s
 					}
 				}
 			}
+		}
+		// x & c with a constant of few set bits: sum of the selected bits
+		for _, p := range [][2]*Term{{a, b}, {b, a}} {
+			c := p[1]
+			if !c.IsConst() || c.Val.Sign() < 0 || signed {
+				continue
+			}
+			pop := 0
+			for k := 0; k < c.Val.BitLen(); k++ {
+				if c.Val.Bit(k) == 1 {
+					pop++
+				}
+			}
+			if pop > 10 {
+				continue
+			}
+			r := tb.IntC(0)
+			for k := 0; k < c.Val.BitLen(); k++ {
+				if c.Val.Bit(k) == 1 {
+					r = tb.Add(r, tb.Mul(tb.Mod(tb.Div(p[0], tb.IntB(pow2(k))), tb.IntC(2)), tb.IntB(pow2(k))))
+				}
+			}
+			return x.setBits(r, c.Val.BitLen())
 		}
 	case token.OR, token.XOR:
 		// disjoint bits: a has tz >= k and b < 2^k  =>  a + b
